@@ -98,6 +98,9 @@ class ValidationError(Fault):
             msg = custom_msg % (obj,)
         except TypeError:
             msg = custom_msg
+        except RecursionError:
+            # the value is nested too deeply to be printed
+            msg = custom_msg.replace('%r', '<...>').replace('%s', '<...>')
 
         super(ValidationError, self).__init__(self.CODE, msg)
 
